@@ -95,17 +95,17 @@ def check_code(ctx, name, rng, crosscheck=True):
     try:
         code_np = numqi.qec.generate_code_np(code['encode'], K)
         gram = code_np.conj() @ code_np.T
-        if np.abs(gram - np.eye(K)).max() > 1e-9:
+        if core.gt(np.abs(gram - np.eye(K)).max(), 1e-9):
             bad('codewords', 'code words are not orthonormal')
         for gl, gs in pr['GENS']:
             for j in range(K):
-                if np.abs(apply_pauli(gl, gs, code_np[j]) - code_np[j]).max() > 1e-9:
+                if core.gt(np.abs(apply_pauli(gl, gs, code_np[j]) - code_np[j]).max(), 1e-9):
                     bad('codewords', 'code word %d is not a +1 eigenvector of spec-derived generator %s' % (j, ''.join(LET[c] for c in gl)))
                     break
         for s in listed:
             lt = [LET.index(c) for c in s]
             for j in range(K):
-                if np.abs(apply_pauli(lt, 0, code_np[j]) - code_np[j]).max() > 1e-9:
+                if core.gt(np.abs(apply_pauli(lt, 0, code_np[j]) - code_np[j]).max(), 1e-9):
                     bad('listed-stabilizer', 'listed string %s does not fix code word %d' % (s, j), dict(string=s))
                     break
         # (4) error list and KL inner products of the real code
@@ -124,7 +124,7 @@ def check_code(ctx, name, rng, crosscheck=True):
                 continue
             ce = exp[tuple(lt)]['ce']
             want_m = np.zeros((K, K)) if ce < 0 else (1j ** ce) * np.eye(K)
-            if np.abs(m - want_m).max() > 1e-9:
+            if core.gt(np.abs(m - want_m).max(), 1e-9):
                 bad('knill_laflamme_inner_product', '<i|E|j> differs from c_E delta_ij decided by the specification for E=' + ''.join(LET[c] for c in lt), dict(error=lt, ce=ce))
         ctx.traces += len(errs)
         # (5) shipped stabilizer circuits implement the listed strings
@@ -135,7 +135,7 @@ def check_code(ctx, name, rng, crosscheck=True):
                 bad('stabilizer-circuit', 'circuit for %s acts on fewer qubits than the string' % s, dict(string=s))
                 continue
             U = circ.to_unitary()
-            if np.abs(U - pauli_matrix([LET.index(c) for c in s[:nq]])).max() > 1e-9:
+            if core.gt(np.abs(U - pauli_matrix([LET.index(c) for c in s[:nq]])).max(), 1e-9):
                 bad('stabilizer-circuit', 'shipped stabilizer circuit does not implement its listed Pauli string', dict(string=s))
     except Exception as ex:
         bad('exception', repr(ex))
@@ -187,7 +187,7 @@ def run(ctx):
         if info['n'] <= (6 if quick else 8):
             try:
                 A, B = numqi.qec.quantum_weight_enumerator(info['code_np'])
-                if np.abs(A - np.round(A)).max() > 1e-7 or np.abs(B - np.round(B)).max() > 1e-7:
+                if core.gt(np.abs(A - np.round(A)).max(), 1e-7) or core.gt(np.abs(B - np.round(B)).max(), 1e-7):
                     ctx.violation('C19:%s:weight-enumerator' % nm, 'weight enumerator of a stabilizer code is not integral', dict(A=A.tolist(), B=B.tolist()))
                 ev.append(dict(op='qwe', code=nm, n=info['n'], k=info['k'], d=info['d'], gates=info['gates'], A=[int(round(x)) for x in A], B=[int(round(x)) for x in B]))
             except Exception as ex:
@@ -207,7 +207,7 @@ def run(ctx):
             try:
                 ip = numqi.qec.knill_laflamme_inner_product(info['code_np'], ops)
                 for lt, m in zip(pool, ip):
-                    if np.abs(m - np.round(m)).max() > 1e-9:
+                    if core.gt(np.abs(m - np.round(m)).max(), 1e-9):
                         ctx.violation('C19:%s:knill_laflamme_inner_product' % nm, 'inner product of a stabilizer code with a Pauli is not a Gaussian integer', dict(error=lt))
                     ev.append(dict(op='kl', code=nm, n=n, k=info['k'], gates=info['gates'], err=lt, mat=g2(m)))
             except Exception as ex:
